@@ -401,6 +401,13 @@ def render(repo):
         s["line"], comment_of(s["guard"]), comment_of(s["pre"]), comment_of(s["fmt"]), comment_of(s["guard2"]), comment_of(s["plain"])))
     w("def diffSite : QuoteSite := " + site(s))
     bdef("diffPlainGuard", s["guard2"], "xzdiff.in:%d  guard of the plain-quoting arm" % (s["line"] + 1))
+    bdef("cmpDashDashSrc", d["cmpDashDash"], "xzdiff.in  `cmp=` this word (after the option loop)")
+    w("/-- xzdiff.in: the distinct argument lists of `eval \"$cmp\" …`:")
+    for e in d["cmpEvals"]:
+        w("    `eval %s`" % comment_of(e))
+    w("-/")
+    w("def cmpEvalSrcs : List Bytes := [\n  " + ",\n  ".join(lean_bytes(e) for e in d["cmpEvals"]) + "]")
+    w("")
     sp = g["split"]
     bdef("splitPrefixSrc", sp["pre"], "xzgrep.in:%d  `arg2=`PREFIX`$(LC_ALL=C expr \"X${option}%s\" : '%s' | LC_ALL=C sed \"$escape\")`" % (sp["line"], sp["sfx"], comment_of(sp["re"])))
     bdef("splitGuardSuffix", sp["sfx"], "the bytes appended after ${option} in that expr subject (the guard that protects trailing newlines)")
